@@ -89,6 +89,20 @@ def check(c):
     ok2 = any(c.holds(r, "re.match('^run\\\\d+$', dir_name)") for r in rr)
     c.ob('C39.reserved', f'{cr.fq} :: rejects RESERVED_NAMES components',
          ok1, c.where(cr.node, cr), '')
+    # ... every component is compared: no component is exempted before the
+    # tests (hidden names like `.service` are reserved names too)
+    for r in rr:
+        if c.holds(r, 'dir_name in WorkflowFiles.RESERVED_NAMES'):
+            c.guard_only('C39.reserved', r, [
+                'dir_name in WorkflowFiles.RESERVED_NAMES'], cr,
+                stop=loops[0] if loops else None,
+                what='no component is exempt from the reserved-name test;')
+        elif c.holds(r, "re.match('^run\\\\d+$', dir_name)"):
+            c.guard_only('C39.reserved', r, [
+                "re.match('^run\\\\d+$', dir_name)",
+                '!(dir_name in WorkflowFiles.RESERVED_NAMES)'], cr,
+                stop=loops[0] if loops else None,
+                what='no component is exempt from the run<N> test;')
     c.ob('C39.reserved', f'{cr.fq} :: rejects run<N> components', ok2,
          c.where(cr.node, cr), '')
     rn = c.K.class_attr('WorkflowFiles', 'RESERVED_NAMES')
@@ -155,6 +169,13 @@ def check(c):
 
 
 VARIANTS = [
+    ('hidden-components-exempt', 'cylc/flow/workflow_files.py',
+     '''    for dir_name in Path(name).parts:
+        if dir_name in WorkflowFiles.RESERVED_NAMES:''',
+     '''    for dir_name in Path(name).parts:
+        if dir_name.startswith(os.curdir):
+            continue
+        if dir_name in WorkflowFiles.RESERVED_NAMES:''', 'C39.reserved'),
     ('test-before-normpath', 'cylc/flow/workflow_files.py',
      '''    name = os.path.normpath(name)
     if name.startswith(os.curdir):''',
